@@ -219,6 +219,14 @@ Ltac tail_cases chunk :=
       rewrite (run_cases_cons bs E v l body ((l2, body2) :: r) _ _ (H s)); clear H; cbn [ends_with_fall]
   end.
 
+(* the last case (`case 0`, the remainder) on a memory made abstract again *)
+Ltac finish_tail :=
+  cbn [enc_tail enc_case dec_tail dec_case Nat.leb fst snd Nat.add];
+  lazymatch goal with
+  | |- option_map _ (run_cases _ _ _ _ (mkist _ _ _ ?S)) = _ =>
+      let s1 := fresh "s1" in generalize S; intro s1; reflexivity
+  end.
+
 Ltac enter_switch :=
   cbn [interp_switch sh_cases go_encrypt8_shape go_encrypt16_shape go_decrypt8_shape go_decrypt16_shape
        Z.of_nat Pos.of_succ_nat Pos.succ Z.eqb Pos.eqb].
@@ -235,7 +243,7 @@ Proof. unfold enc_stride. cbn [sh_body go_encrypt8_shape]. body_pairs chunk_enc.
 Lemma src_encrypt8_tail E s :
   Forall (fun k => option_map i_st (interp_switch 8 E MD (sh_cases go_encrypt8_shape) (Z.of_nat k) (mkist 0 8 0 s)) =
                    Some (enc_rem 8 (enc_tail 8 E k (0, s)))) all_k.
-Proof. repeat constructor; enter_switch; tail_cases chunk_enc; reflexivity. Qed.
+Proof. unfold all_k. repeat (apply Forall_cons; [enter_switch; tail_cases chunk_enc; finish_tail|]). apply Forall_nil. Qed.
 
 (* ---------- encrypt16 ---------- *)
 Lemma src_encrypt16_header : header_ok go_encrypt16_shape 16 false = true.
@@ -249,7 +257,7 @@ Proof. unfold enc_stride. cbn [sh_body go_encrypt16_shape]. body_pairs chunk_enc
 Lemma src_encrypt16_tail E s :
   Forall (fun k => option_map i_st (interp_switch 16 E MD (sh_cases go_encrypt16_shape) (Z.of_nat k) (mkist 0 16 0 s)) =
                    Some (enc_rem 16 (enc_tail 16 E k (0, s)))) all_k.
-Proof. repeat constructor; enter_switch; tail_cases chunk_enc; reflexivity. Qed.
+Proof. unfold all_k. repeat (apply Forall_cons; [enter_switch; tail_cases chunk_enc; finish_tail|]). apply Forall_nil. Qed.
 
 (* ---------- decrypt8 ---------- *)
 Lemma src_decrypt8_header : header_ok go_decrypt8_shape 8 true = true.
@@ -263,7 +271,7 @@ Proof. unfold dec_stride. cbn [sh_body go_decrypt8_shape]. body_pairs chunk_dec.
 Lemma src_decrypt8_tail E s :
   Forall (fun k => option_map i_st (interp_switch 8 E MS (sh_cases go_decrypt8_shape) (Z.of_nat k) (mkist 0 8 0 s)) =
                    Some (dec_rem 8 (dec_tail 8 E k ((0, 8), (0, s))))) all_k.
-Proof. repeat constructor; enter_switch; tail_cases chunk_dec; reflexivity. Qed.
+Proof. unfold all_k. repeat (apply Forall_cons; [enter_switch; tail_cases chunk_dec; finish_tail|]). apply Forall_nil. Qed.
 
 (* ---------- decrypt16 ---------- *)
 Lemma src_decrypt16_header : header_ok go_decrypt16_shape 16 true = true.
@@ -277,4 +285,4 @@ Proof. unfold dec_stride. cbn [sh_body go_decrypt16_shape]. body_pairs chunk_dec
 Lemma src_decrypt16_tail E s :
   Forall (fun k => option_map i_st (interp_switch 16 E MS (sh_cases go_decrypt16_shape) (Z.of_nat k) (mkist 0 16 0 s)) =
                    Some (dec_rem 16 (dec_tail 16 E k ((0, 16), (0, s))))) all_k.
-Proof. repeat constructor; enter_switch; tail_cases chunk_dec; reflexivity. Qed.
+Proof. unfold all_k. repeat (apply Forall_cons; [enter_switch; tail_cases chunk_dec; finish_tail|]). apply Forall_nil. Qed.
